@@ -13,6 +13,9 @@ CHECKS = {
  "C03": dict(design="3/C03", technique="exhaustive enumeration of term families, term orders and factor orders on complete-factorial frames; rank/span comparison with a complete-indicator reference matrix",
    text="Bounded exhaustive model checking on the real design_matrices: all 127 (thorough: all 32767) families of interaction terms over 3 (4) two-level factors with/without intercept in every term order (<= 4 terms) or sorted/reversed/rotated order, further level-count vectors, every ordered family of <= 2 (<= 3) terms with every factor order over f g h x (z), and every C/T/S/scale/poly/bs atom substitution; each common matrix must have full column rank and exactly the span of the reference coding.",
    note="Trusts numpy SVD with a gap check (ambiguous -> undecided, never a violation), the genericity argument for one seeded numeric draw, and the complete-indicator reference (fmc/frames.py); families beyond the bounds are not covered."),
+ "C04": dict(design="3/C04", technique="exhaustive enumeration of formulas x frames (dtype variants, row counts); every label interpreted by a reference label semantics and compared with its column",
+   text="Bounded exhaustive model checking on the real design_matrices: every generated formula (all interactions of arity 2-3 in every factor order over two categoricals, an integer-via-C factor and two numerics, alone / with margins / with and without intercept, group-specific terms, numeric / categorical / y[level] responses) on every generated frame (str, unordered and ordered Categorical with declared non-sorted order, unequal level counts, several row counts): each column must equal the meaning of its label, labels and columns equal in number and order, levels sorted or in declared order.",
+   note="Trusts the reference label semantics in fmc/checks/c04.py; Sum-coded pieces are C13's business; frames where a declared category is unobserved are not generated."),
 }
 NOT_YET = {}
 props = [json.loads(l) for l in open(os.path.join(V, "properties.jsonl"))]
